@@ -417,7 +417,10 @@ def _run_check(pid, tier, seed, udir, meta, work, ev_path, t0, only):
         with open(cfile, 'w') as f:
             f.write(text)
         reports.append(ex.report)
+        keep = meta.get('import_jobs', {}).get(tn)
         for j in jobs:
+            if keep is not None and j['name'] not in keep:
+                continue
             jb = Job(j)
             jb.cfile = cfile
             all_jobs.append(jb)
